@@ -163,12 +163,67 @@ def shrink_candidates(inp):
     return out
 
 
+def model_search(chk):
+    """Sweep the MODEL (in the mode selected by the regenerated facts) over every request kind x injection point on two
+    deliver scripts and return, as harness inputs, the combinations for which the model predicts interference, followed by
+    all the others (the implementation is then replayed on them by check.py)."""
+    import os, re
+    y = {"op": "yield", "to": 0, "amt": 0}
+    scripts = [[y], [{"op": "send", "to": 2, "amt": 7000000}, y, {"op": "bank", "to": 3, "amt": 2000000}]]
+    inputs = []
+    for st in scripts:
+        for kind in QKIND:
+            for point in ("yield", "pre", "post", "interblock"):
+                inputs.append({"value": 30000000, "bal": [50000000, 1000000, 0], "steps": st, "revert": False, "point": point, "k": 0,
+                               "queries": [{"kind": kind, "to": 2, "amt": 5000000}]})
+    fake = {"hash_eq": True, "next_eq": True, "tx_eq": True, "base_ok": True, "tx_ok": True, "base": [], "with": [],
+            "gas": [60000, 60000], "gas2": [21000, 21000], "qgas": [47000], "qres": ["ok"], "injected": True}
+    wd = os.path.join(chk.BUILD, "run", ID)
+    os.makedirs(wd, exist_ok=True)
+    path = os.path.join(wd, "sweep_C09.v")
+    with open(path, "w") as f:
+        f.write("From Coq Require Import List ZArith String. Import ListNotations.\n" + CASES_HEADER + "\n")
+        f.write("Set Printing Width 1000000. Set Printing Depth 1000000.\n")
+        f.write("Definition cs : list (nat * case) := [\n")
+        f.write(";\n".join("  (%d, %s)" % (n, to_coq_case({"input": i, "obs": fake})) for n, i in enumerate(inputs)))
+        f.write("\n].\nDefinition bad := Eval vm_compute in map fst (filter (fun c => negb (Pb (predict (mode_of ptr_sites) (snd c)))) cs).\nPrint bad.\n")
+    rc, out, _ = chk.coqc(path)
+    pred = []
+    if rc == 0:
+        m = re.search(r"bad\s*=\s*\[(.*?)\]", out, re.S)
+        if m:
+            pred = [int(x) for x in re.split(r"[;\s]+", m.group(1)) if x.strip()]
+    rest = [n for n in range(len(inputs)) if n not in pred]
+    return [inputs[n] for n in pred + rest][:50]
+
+
 MANIFEST = {
     "level_claimed": {
         "category": "proof",
-        "text": "filled in at the end",
+        "text": ("PARTIAL. Coq interleaving model of the one piece of mutable data shared by block execution and read-only "
+                 "requests (the process-wide pointer Keeper.Bank.StateDB: publish/reuse in EthereumTx, mirror in every bank "
+                 "operation, deferred clear) with thread 0 = DeliverTx and threads 1.. = eth_call / estimateGas / traceTx / "
+                 "simulation / gRPC scripts, semantics over ALL schedules. Proved by induction over schedules: "
+                 "C09_noninterference_partial (+_sequential) — in the sub-model where request steps cannot dereference, publish "
+                 "or clear the pointer, committed state, written accounts and the tx result equal the sequential run of "
+                 "DeliverTx alone for every schedule; C09_interference_only_through_hazard + "
+                 "C09_hazard_is_bank_op_while_published — in the faithful model interference is possible only through a request's "
+                 "bank operation executed while the pointer is published (or a simulated EthereumTx publishing/clearing it); "
+                 "C09_noninterference_refuted — the faithful model violates the statement (5-step schedule). The faithful model "
+                 "is tied to /repo on every run: a go/ast inventory of the functions touching the pointer selects the model "
+                 "(C09_pointer_sites_known, C09_current_tree) and the model's prediction of ALL observables (app-hash equality, "
+                 "tx results, 7 balances on both replicas) is compared with two real replicas driven through "
+                 "BeginBlock/DeliverTx/EndBlock/Commit, with requests issued through app.Query / app.Simulate inside an in-flight "
+                 "EVM tx (yield precompile), before it, between two txs and after Commit. On the unchanged tree the refutation "
+                 "is REAL: open known finding F8 (unsigned balance changes / failed delivery), matched by precise signatures."),
         "design_ref": "DESIGN.md §5 C09",
     },
-    "level_note": "",
-    "technique": "Coq proof (induction over schedules of an interleaving model) + differential replicas with requests injected at yield points",
+    "level_note": ("Real goroutine schedules are exhibited only by inline injection at yield points (pre-emption inside a request is "
+                   "covered by the model, not by the harness); TestRaceC09 gives -race evidence with real goroutines (103 reports, "
+                   "same committed corruption). Oracle values: gas used by the in-flight, tail and simulated txs. Relaxed "
+                   "comparison after a hazard: bank events surviving reverted frames, simulated EVM tx committing the shared "
+                   "StateDB inside a reverted frame. Trusted: Coq kernel + vm_compute, plugin rendering, kind→script table in "
+                   "Check.v (validated: 0 mismatches on > 9000 cases), syntactic guard recognition of the extractor (selects the "
+                   "model only). Candidate repair (31 added lines, suites green, check V=0) in the final report, not applied."),
+    "technique": "Coq proof (induction over schedules of an interleaving model, refutation by vm_compute) + generated pointer-site facts + differential replicas with requests injected at yield points",
 }
